@@ -306,3 +306,92 @@ def assigned_agg_variants(body, st):
             else:
                 out.add("?")
     return out
+
+
+def dominating_conditions(body, bb, region=None):
+    """[(edge, descs, polarity)] for every bool edge (source inside `region` if given) that dominates block bb: the conditions under which bb runs.
+    Variant edges are not included (regions already express them)."""
+    out = []
+    for e in body.edges:
+        l = e.label
+        if not l or l[0] != "bool" or l[2] is None:
+            continue
+        if region is not None and e.src not in region:
+            continue
+        if bb in body.dominated_by_edge(e):
+            out.append((e, bool_atom_desc(body, l[2]), l[1]))
+    return out
+
+
+def conditions_within(conds, allowed):
+    """every dominating condition matches one of the allowed (predicate on desc item, polarity) pairs; returns the offending ones.
+    Logging-level tests (`log::max_level`, `__private_api::enabled`, STATIC_MAX_LEVEL comparisons) never dominate protocol code and are ignored."""
+    bad = []
+    for (e, descs, pol) in conds:
+        ok = False
+        for d in descs:
+            items = [(d, pol)]
+            if d[0] == "not":
+                items = [(x, not pol) for x in d[1]]
+            for (x, p) in items:
+                if x[0] == "binop" and any(isinstance(s, tuple) and any(isinstance(y, tuple) and y and y[0] == "call" and ("log::" in y[1] or "max_level" in y[1]) for y in s) for s in x[2:4]):
+                    ok = True
+                if x[0] == "call" and ("log::" in x[1] or "__private_api" in x[1]):
+                    ok = True
+                if x[0] == "call" and len(x) > 2 and any(any(isinstance(a, tuple) and len(a) > 1 and isinstance(a[1], str) and (a[1].startswith("log::") or a[1] == "log::Level" or a[1] == "log::LevelFilter") for a in arg) for arg in x[2]):
+                    ok = True  # `lvl <= STATIC_MAX_LEVEL && lvl <= log::max_level()` of the logging macros
+                for (pred, want) in allowed:
+                    if pred(x) and (want is None or want == p):
+                        ok = True
+        if not descs:
+            ok = False
+        if not ok:
+            bad.append((e, descs, pol))
+    return bad
+
+
+def cond_is_insert_result(field):
+    """the bool returned by HashSet::insert on a set reached from helper.<field>"""
+    return lambda d: d[0] == "call" and d[1].endswith("::insert") and d[2] and atom_has_field(d[2][0], field, "TargetActorHelper")
+
+
+def cond_is_remove_result(field):
+    return lambda d: d[0] == "call" and d[1].endswith("::remove") and d[2] and atom_has_field(d[2][0], field, "TargetActorHelper")
+
+
+def cond_len_eq_one(field):
+    def p(d):
+        if d[0] != "binop" or d[1] != "Eq":
+            return False
+        sides = [d[2], d[3]]
+        has_len = any(any(y[0] == "call" and y[1].endswith("::len") and y[2] and atom_has_field(y[2][0], field, "TargetActorHelper") for y in s if isinstance(y, tuple)) for s in sides)
+        has_one = any(any(y[0] == "const" and y[1].startswith("1") for y in s if isinstance(y, tuple)) for s in sides)
+        return has_len and has_one
+    return p
+
+
+def cond_is_empty(field):
+    return lambda d: d[0] == "call" and d[1].endswith("::is_empty") and d[2] and atom_has_field(d[2][0], field, "TargetActorHelper")
+
+
+def fmt_conds(conds):
+    out = []
+    for (e, descs, pol) in conds:
+        s = []
+        for d in descs:
+            if d[0] == "call":
+                s.append(d[1].split("::")[-1] + "(..)")
+            elif d[0] == "field":
+                s.append(d[1])
+            elif d[0] == "binop":
+                s.append(d[1])
+            elif d[0] == "not":
+                s.append("!" + ",".join((x[1].split("::")[-1] if x[0] == "call" else str(x[1])) for x in d[1]))
+            else:
+                s.append(d[0])
+        out.append(f"{'/'.join(s) or '?'}={pol}@L{body_line(e)}")
+    return "; ".join(out)
+
+
+def body_line(e):
+    return e.src
